@@ -1,9 +1,13 @@
 #!/bin/sh
-# Offline setup: the driver is a python3 script and needs no build; warm the Go build
-# cache for the harness so that the first check does not pay the cold build.
-set -e
+# Offline setup: the driver is a python3 script and needs no build. Warm the Go build cache for the
+# harness engines so that the first check does not pay the cold build. A failure to build one engine is
+# reported but does not fail the setup: the check that needs it reports it (exit 2) by itself.
 cd "$(dirname "$0")"
 mkdir -p .work evidence replays
+export GOFLAGS=-mod=mod GOPROXY=off GOSUMDB=off GOTOOLCHAIN=local
 cd harness
-go build -tags verif ./... 
+for d in cmd/*/; do
+  e=$(basename "$d")
+  go build -tags verif -o /dev/null "./cmd/$e" || echo "setup: warning: engine $e does not build"
+done
 echo setup ok
